@@ -50,6 +50,8 @@ type GenOpts struct {
 	MaxDepth    int
 	NoTies      bool // make all values at one timestamp pairwise distinct
 	IntValues   bool // only exactly summable values (k/4), no NaN/Inf
+	Specials    int  // one sample in Specials (default 10) is NaN, +Inf, -Inf or 0, a quarter each
+	OnlyNaN     bool // ... is NaN
 	Vocabulary  string // "" = full native vocabulary; "model" = the fragment modelled in Coq
 	NoAt        bool
 	NoStartEnd  bool
@@ -204,7 +206,15 @@ func genData(r *rand.Rand, w Window, lb int64, o GenOpts) []SeriesData {
 				v = quarter(r)
 			}
 			if !o.IntValues {
-				switch r.Intn(40) {
+				sp := 10
+				if o.Specials > 0 {
+					sp = o.Specials
+				}
+				k := r.Intn(4 * sp)
+				if o.OnlyNaN && k < 4 {
+					k = 0
+				}
+				switch k {
 				case 0:
 					v = math.NaN()
 				case 1:
@@ -590,6 +600,11 @@ func genQuery(r *rand.Rand, w Window, o GenOpts) string {
 		op := pick(g.r, []string{"-", "+", "*", "/"})
 		return fmt.Sprintf("(%s%s) %s (%s%s)", sel, g.modifiers(), op, sel, g.forcedModifiers())
 	case "range":
+		if r.Intn(6) == 0 {
+			// one selector under one function with two ranges (the two selects differ in their start only)
+			fn, sel, mods := pick(g.r, rangeFuncs), g.selector(), g.modifiers()
+			return fmt.Sprintf("%s(%s[%s]%s) %s %s(%s[%s]%s)", fn, sel, g.dur(), mods, pick(g.r, []string{"-", "+", "/", "== bool"}), fn, sel, g.dur(), mods)
+		}
 		q := fmt.Sprintf("%s(%s[%s]%s)", pick(g.r, rangeFuncs), g.selector(), g.dur(), g.modifiers())
 		if r.Intn(4) == 0 {
 			q = "sum by (a) (" + q + ")"
